@@ -74,7 +74,8 @@ class RobustModel(nn.Module):
 
     def flatten_row_jacobian(self, J, params_values):
         if isinstance(J, (tuple, list)):
-            J = torch.cat([j.reshape(-1, p.numel()) for j, p in zip(J, params_values)], 1)
+            # parameters with requires_grad=False are constants: they get no column in the system
+            J = torch.cat([j.reshape(-1, p.numel()) for j, p in zip(J, params_values) if p.requires_grad], 1)
         return J
 
     def normalize_RWJ(self, R, weight, J):
@@ -136,8 +137,9 @@ class _Optimizer(Optimizer):
         r'''
         params will be updated by calling this function
         '''
-        steps = step.split([p.numel() for p in params if p.requires_grad])
-        [p.add_(d.view(p.shape)) for p, d in zip(params, steps) if p.requires_grad]
+        params = [p for p in params if p.requires_grad]
+        steps = step.split([p.numel() for p in params])
+        [p.add_(d.view(p.shape)) for p, d in zip(params, steps)]
 
 
 class GaussNewton(_Optimizer):
